@@ -58,7 +58,7 @@ func objects(x *mon.Ctx, sha1Mode bool) {
 		if kind == "cfca-csr" && sha1Mode {
 			kind = "csr"
 		}
-		c := x.Begin("object #%d kind=%s signer=%v sha1=%v (template, subject key, algorithm drawn from the case PRNG; all 4 substitutions at every DER offset)", i, kind, sk, sha1Mode)
+		c := x.Begin("object #%d kind=%s signer=%v sha1=%v (template, subject key, algorithm drawn from the case PRNG; all 4 substitutions at every DER offset, every 4th offset for P-384 signers)", i, kind, sk, sha1Mode)
 		if c == nil {
 			continue
 		}
@@ -74,10 +74,19 @@ func objects(x *mon.Ctx, sha1Mode bool) {
 // one goroutine.
 var libR *mon.Rand
 
+// sweepStride/sweepPhase of the current case: objects signed by a P-384 key (one
+// verification costs as much as twenty of the others) are swept at every fourth offset,
+// starting at the object number mod 4; all other objects at every offset.
+var sweepStride, sweepPhase = 1, 0
+
 func splitLibRand(c *mon.Case) { libR = mon.NewRand(c.R.Uint64(), "c15.library-random-source") }
 
 func runObject(c *mon.Case, i int, kind string, sk keyKind, sha1Mode bool) {
 	splitLibRand(c)
+	sweepStride, sweepPhase = 1, 0
+	if sk == kP384 {
+		sweepStride, sweepPhase = 4, i%4
+	}
 	r := c.R
 	signer, err := newKey(r, sk, 0)
 	if err != nil {
@@ -533,6 +542,9 @@ func sweep(c *mon.Case, what string, der []byte, orig sigParts, fidelity bool, p
 	}
 	m := make([]byte, len(der))
 	for i := range der {
+		if i%sweepStride != sweepPhase {
+			continue
+		}
 		for k, v := range [4]byte{der[i] ^ 0x01, der[i] ^ 0x80, 0x00, 0xFF} {
 			if v == der[i] {
 				continue // identity mutant
@@ -552,7 +564,7 @@ func sweep(c *mon.Case, what string, der []byte, orig sigParts, fidelity bool, p
 	try(append(append([]byte{}, der...), 0x00), "with one trailing zero byte", trail)
 	try(append(append([]byte{}, der...), der...), "followed by a copy of itself", trail)
 	c.Event("sweeps", 1)
-	c.Event("sweep_bytes", len(der))
+	c.Event(fmt.Sprintf("sweep_bytes(stride %d)", sweepStride), len(der))
 }
 
 // ---- certificate requests ----
